@@ -719,6 +719,64 @@ func partB(r *core.Run) {
 	}
 	r.Set("exhaustive_partB", "11 privileged methods x 6 direct caller shapes x 2 chains + packet-call-data path + cross-module path")
 
+	// ---- a user contract emitting a byte-exact PacketSent(bytes) event for the packet that would be next on the path:
+	// "another contract" must not be able to make the module number, commit and announce a packet. Called directly by the
+	// attacker and from the call data of a really relayed packet.
+	lookAlike := func(n, other *core.Node) (common.Address, uint64, bool) {
+		seq := n.ContractNextSeq(other.Name)
+		p := packettypes.Packet{SrcChain: n.Name, DstChain: other.Name, Sequence: seq, Sender: pkt.LowerHex(attacker.Eth), TransferData: []byte{}, CallData: []byte{1}}
+		bz, err := p.ABIPack()
+		if err != nil {
+			return common.Address{}, 0, false
+		}
+		ev := core.PacketABI.Events[packettypes.PacketSendEvent]
+		data, err := ev.Inputs.Pack(bz)
+		if err != nil {
+			return common.Address{}, 0, false
+		}
+		addr, err := n.DeployRuntime(attacker.Eth, core.Emitter([]common.Hash{ev.ID}, data))
+		return addr, seq, err == nil
+	}
+	for _, pair := range [][2]*core.Node{{a, b}, {b, a}} {
+		n, other := pair[0], pair[1]
+		em, seq, ok := lookAlike(n, other)
+		if !ok {
+			r.Inconclusive("contracts: cannot deploy the look-alike emitter")
+			return
+		}
+		fpBefore, xBefore := fingerprint(n, other), n.DumpStore(n.Ctx(), "xibc")
+		tx, err := n.EthTx(attacker, &em, nil, 1_000_000, []byte{})
+		if err != nil {
+			continue
+		}
+		o := s.DeliverEth(n, "look-alike PacketSent from a user contract", tx)
+		r.Eval(fmt.Sprintf("B/%s/look-alike-event/direct", n.Name), o.OK())
+		r.Count("look_alike_events/direct", 1)
+		xd := core.Diff("xibc", xBefore, n.DumpStore(n.Ctx(), "xibc"))
+		if fpAfter := fingerprint(n, other); fpAfter != fpBefore || len(xd) != 0 {
+			r.Violation(cid, "privileged/send-driven-by-a-look-alike-event-of-a-user-contract/direct", map[string]interface{}{"chain": n.Name, "sequence": seq, "xibc_diff": core.TrimDiff(xd, 8), "before": fpBefore, "after": fpAfter})
+		}
+	}
+	{
+		em, seq, ok := lookAlike(b, a)
+		if ok {
+			fpBefore := fingerprint(b, a)
+			sp := pkt.SendSpec{Src: a, Dst: b, User: attacker, Call: pkt.CallSpec{Kind: "raw", Contract: strings.ToLower(em.Hex()), Data: []byte{1}}}
+			_, ps := s.Send(sp)
+			if len(ps) == 1 {
+				if _, err := s.HonestRecv(ps[0], rel); err == nil {
+					r.Eval("B/look-alike-event/packet-call-data", true)
+					r.Count("look_alike_events/packet-call-data", 1)
+					r.Count(fmt.Sprintf("look_alike_packet_path_ack_code_%d", ps[0].AckCode), 1)
+					held := b.App.XIBCKeeper.PacketKeeper.GetPacketCommitment(b.Ctx(), b.Name, a.Name, seq)
+					if fpAfter := fingerprint(b, a); fpAfter != fpBefore || len(held) != 0 {
+						r.Violation(cid, "privileged/send-driven-by-a-look-alike-event-of-a-user-contract/packet-call-data", map[string]interface{}{"chain": b.Name, "sequence": seq, "commitment": core.Hex(held), "before": fpBefore, "after": fpAfter})
+					}
+				}
+			}
+		}
+	}
+
 	// ---- call data carried inside a really relayed packet (executed by the execute contract on the destination)
 	for _, pc := range calls(b, a) {
 		fpBefore := fingerprint(b, a)
